@@ -613,7 +613,15 @@ func (p *packerV4) pack(options ...*bgp.MarshallingOption) []*bgp.BGPMessage {
 	// TotalPathAttributeLen + attributes + maxlen of NLRI).
 	// the max size of NLRI is 5bytes (plus 4bytes with addpath enabled)
 	maxNLRIs := func(attrsLen int) int {
-		return (maxUpdateMessageLength(options) - (19 + 2 + 2 + attrsLen)) / (5 + addpathNLRILen)
+		n := (maxUpdateMessageLength(options) - (19 + 2 + 2 + attrsLen)) / (5 + addpathNLRILen)
+		if n < 1 {
+			// Never less than one NLRI per message. A route with a short prefix
+			// may still fit; one that does not is refused (and logged) by
+			// Serialize() in the sender instead of vanishing here, and a
+			// negative count must not reach make() in split().
+			n = 1
+		}
+		return n
 	}
 
 	loop := func(attrsLen int, paths []*Path, cb func([]bgp.PathNLRI)) {
